@@ -19,7 +19,7 @@ LEVEL_RULE = (
 EXHAUSTIVE_SUBDOMAINS = ["8192 identity patterns x {DF5, DF21, TC28}", "FS x DR x IIS x IDS product x {DF4, DF5}", "interrogator overlays 0..127 plus every single high bit x {0,5,22,79} and random 24-bit overlays",
                          "CA 0..7, interrogator code 0..127", "guard matrix: 8 decoders x DF 0..31"]
 ASSUMPTIONS = ["description strings returned beside FS/DR/IDS/CA are not judged, only the numeric fields"]
-REQUIRED = ["id_df5", "id_df21", "id_tc28", "id_tc28_sparse", "x0", "x1", "surv_df4", "surv_df5", "ic_ii", "ic_si", "ic_corrupt", "ca", "guards"]
+REQUIRED = ["id_df5", "id_df21", "id_tc28", "id_tc28_sparse", "field_overwritten_parity_kept", "x0", "x1", "surv_df4", "surv_df5", "ic_ii", "ic_si", "ic_corrupt", "ca", "guards"]
 
 
 def m_identity(ctx, case):
@@ -131,6 +131,24 @@ def m_allcall(ctx, case):
                 ctx.violation("capability-wrong", frame=hx, expected=ca, observed=r[1:])
             ctx.hit("ca")
             ctx.nontrivial(("ac", hx))
+            # the same reply with ONE field overwritten afterwards (the parity still belongs to the old content: what a bit
+            # error in that field looks like) - the decoders report the bits that are in the frame, they do not "repair" it
+            for ca2 in range(8):
+                if ca2 == ca:
+                    continue
+                f2 = bits.setfield(f, 56, 6, 8, ca2)
+                h2 = "%014X" % f2
+                r = call(allcall.capability, h2)
+                ctx.ev()
+                if not (r[0] == "ok" and isinstance(r[1], tuple) and r[1][0] == ca2):
+                    ctx.violation("capability-wrong", frame=h2, expected=ca2, observed=r[1:], note="CA overwritten, parity of the old content")
+            a2 = addr ^ (1 << rng.randrange(24))
+            h3 = "%014X" % bits.setfield(f, 56, 9, 32, a2)
+            r = call(allcall.icao, h3)
+            ctx.ev()
+            if r != ("ok", "%06X" % a2):
+                ctx.violation("allcall-icao-wrong", frame=h3, expected="%06X" % a2, observed=r[1:], note="AA bit flipped, parity of the old content")
+            ctx.hit("field_overwritten_parity_kept")
 
 
 def m_guards(ctx, case):
